@@ -75,6 +75,10 @@ def cases(chk):
     for ln in (0, 1, 2, 19, 20, 21, 32, 39, 40, 41, 45, 48, 49):
         for ver in (0, 1, 16):
             out.append(("bech32dec", "bech32-decode", [S(btc.bech32_encode("bcrt", ver, rb(rng, ln)))]))
+    # string arguments whose first characters look like hex digits, an opcode name or a number: they are strings, hashed as their characters
+    for t in ("abcdefgh", "feedback", "cafeteri", "deadbeefzz", "fade-out", "1e10x", "0xzz", "TapTweak", "password", "12345x", "OP_DUPx", "ghij"):
+        for nm, cmd in (("sha256", "sha256"), ("hash160", "hash160"), (None, "len"), ("hex", "hex"), ("reverse", "reverse"), ("prefix_compact_size", "prefix-compact-size"), ("echo", "echo")):
+            out.append((nm, cmd, [S(t)]))
     # p2pkh script <-> address
     for _ in range(3):
         h = rb(rng, 20)
@@ -123,6 +127,12 @@ def cases(chk):
     out.append(("jacobi", "jacobi-symbol", [D(bytes([0x1f]) + rb(rng, 31))]))
     out.append(("jacobi", "jacobi-symbol", [D(bytes([0x0f]) + rb(rng, 15) + bytes([0x0f]) + rb(rng, 15))]))
     out.append(("jacobi", "jacobi-symbol", [D(bytes([0x01, 0x07, 0x1d]) + rb(rng, 29))]))
+    # n with long runs of trailing zero bits (the halving loop), one and two arguments
+    for e_ in ((63, 64, 65, 66, 128, 129, 200) if quick else tuple(range(60, 72)) + (127, 128, 129, 130, 191, 192, 193, 200, 250)):
+        for m_ in (1, 3, 5):
+            if m_ << e_ < 2 ** 256:
+                out.append(("jacobi", "jacobi-symbol", [D((m_ << e_).to_bytes(32, "little"))]))
+                out.append(("jacobi", "jacobi-symbol", [D((m_ << e_).to_bytes(32, "little")), D((2 ** 255 - 19).to_bytes(32, "little"))]))
     out.append(("jacobi", "jacobi-symbol", [D((3).to_bytes(32, "little")), D((7).to_bytes(32, "little"))]))
     out.append(("jacobi", "jacobi-symbol", [D((10).to_bytes(32, "little")), D((21).to_bytes(32, "little"))]))
     # taproot tweak, Schnorr verification
